@@ -440,6 +440,9 @@ def execute_history(job):
     with common.scratch('sq') as folder:
         runner = Runner(folder, cfg, table, full)
         lines, closed_fds = runner.run(steps)
+    for line in lines:
+        line['closedfds'] = 0
+    lines[-1]['closedfds'] = closed_fds
     return {'tid': tid, 'cfg': cfg, 'lines': lines, 'closed_fds': closed_fds, 'steps': steps}
 
 
@@ -455,7 +458,7 @@ INVARIANTS = {
     'C11': ['C11_DeleteExact', 'C11_RepackCompact'],
     'C12': ['C12_ValidateClean'],
     'C13': ['C13_AppendOnly', 'C13_Numbering', 'C13_OnlyLastGrows'],
-    'C18': ['C18_NoFdLeak'],
+    'C18': ['C18_NoFdLeak', 'C18_ClosedNoFds'],
     'C08': ['C08_HandleViews'],
     'C14': ['C14_ImportExact'],
 }
